@@ -94,6 +94,30 @@ BLOCKS = [
 ]
 
 
+def check_override(case):
+    """Horizon imposed from outside (EquationSolver.MaxTime before parsing / Model.MaxTime): horizon+1 data rows."""
+    H = case['H']
+    try:
+        if case['kind'] == 'override':
+            btxt = BLOCKS[case['block']]
+            s = EquationSolver()
+            s.MaxTime = H
+            s.ParseString((btxt % case['text_horizon']) if case['text_horizon'] is not None else btxt.replace('\nMaxTime = %d', ''))
+            s.SolveEquation()
+        else:
+            from sfc_models.gl_book.chapter3 import SIM
+            m = SIM('C1', use_book_exogenous=False).build_model()
+            m.MaxTime = H
+            m.main()
+            s = m.EquationSolver
+        rows = [l for l in s.GenerateCSVtext('%.5g').split('\n')[1:] if l != '']
+    except Exception as e:
+        return core.violation('solved:override-raises:' + type(e).__name__, 'horizon %d imposed from outside: %r' % (H, e), case)
+    if len(rows) != H + 1:
+        return core.violation('solved:row-count-wrong:imposed-horizon', 'horizon %d imposed from outside (%r): the table has %d data rows' % (H, case, len(rows)), case)
+    return None
+
+
 def run_unit(unit, tier):
     res = core.new_result()
     dig = core.Digest()
@@ -184,6 +208,19 @@ def run_unit(unit, tier):
                             core.bump(res['outcomes'], 'solved-violation')
                         else:
                             core.bump(res['outcomes'], 'solved-ok:' + which)
+        # horizon imposed from outside: EquationSolver.MaxTime set before the block is parsed, Model.MaxTime for a built model
+        cases = [{'kind': 'override', 'block': bi, 'text_horizon': th, 'H': H} for bi in range(len(BLOCKS)) for th in (3, None) for H in (0, 1, 4)]
+        cases += [{'kind': 'override-model', 'H': H} for H in (0, 1, 4)]
+        for case in cases:
+            dig.add(sorted(case.items(), key=str))
+            v = check_override(case)
+            res['evaluations'] += 1
+            res['nontrivial'] += 1
+            if v:
+                res['violations'].append(v)
+                core.bump(res['outcomes'], 'override-violation')
+            else:
+                core.bump(res['outcomes'], 'override-ok')
         # history: the same solver object parses and solves a second block (other variables, other horizon)
         for (b1, H1), (b2, H2) in [((0, 2), (1, 5)), ((1, 5), (0, 2)), ((0, 0), (1, 3)), ((1, 3), (0, 3))]:
             s = EquationSolver(BLOCKS[b1] % H1)
@@ -222,6 +259,9 @@ def run_unit(unit, tier):
 
 
 def replay(case):
+    if case['kind'] in ('override', 'override-model'):
+        v = check_override(case)
+        return [v] if v else []
     if case['kind'] == 'tables-late':
         table = make_table(case['names'], case['shift'], 'equal')
         h2 = TimeSeriesHolder('k')
